@@ -112,7 +112,7 @@ class Program:
                 types.append('type %s struct {\n\tRev int32\n\tWho string\n}\n' % k.name)
         if any(k.excl and 'Unsupported' in k.excl[0] for k in self.all_members()):
             types.append('type Unsupported struct {\n\tZ map[string]chan int\n}\n')
-        return '\n'.join(out + types)
+        return '\n'.join(out + list(dict.fromkeys(types)))  # a struct type used in two places is defined once
 
     def all_members(self):
         def walk(kids):
@@ -441,7 +441,7 @@ class Program:
             L.append('\t\treturn defs, reps, vals, true')
         L += ['\t}', '\treturn nil, nil, nil, false', '}\n']
         o.append('\n'.join(L))
-        return '\n'.join(o)
+        return '\n'.join(dict.fromkeys(o))  # helpers of a struct type used in two places are emitted once
 
 
 def go_str(s):
@@ -690,6 +690,28 @@ def decorate_excluded_names(base, name, where):
     for i, ch in enumerate(UNEXPORTED_FIRST):
         typ = ('int32', '*string')[i % 2]
         tgt.insert((i * (n0 + 1)) // len(UNEXPORTED_FIRST) + i, F('%sq%d' % (ch, i), excl=(typ, None)))
+    return Program(name, kids)
+
+
+def shared_base():
+    """Base program for decorate_embed_shared: the root and a nested group start with the same two members."""
+    return Program('shared', [leaf('A', 'int32'), leaf('B', 'string', 'opt'),
+                              group('In', [leaf('A', 'int32'), leaf('B', 'string', 'opt'), leaf('X', 'int64')], 'opt'),
+                              group('Lst', [leaf('A', 'int32'), leaf('B', 'string', 'opt'), leaf('Y', 'bool')], 'rep'), leaf('Z', 'bool')])
+
+
+def decorate_embed_shared(base, name, places):
+    """The run [A, B] at the start of the root and/or of nested groups is replaced by ONE embedded struct type
+    used in all those places (places: list of struct paths, [] = root)."""
+    kids = _clone(base.kids)
+    _mark_paths(kids, [])
+    for where in places:
+        tgt = kids
+        for n in where:
+            tgt = [k for k in tgt if k.name == n][0].kids
+        emb = F('Base', kids=tgt[0:2], embedded=True)
+        emb.gotype = 'Base'
+        tgt[0:2] = [emb]
     return Program(name, kids)
 
 
